@@ -198,6 +198,11 @@ func (a *Act) reflectIntrinsic(name string, args []Value) (Value, bool) {
 		}
 		a.mayPanic(bad, "reflect: Index out of range or on non-slice")
 		return RV{iv: mergeSameTypes(out)}, true
+	case "(reflect.Value).Interface":
+		// the value as an interface: same dynamic types and values (unexported fields are not modelled
+		// as inaccessible: the bounded type family reaches them through exported names only)
+		rv := args[0].(RV)
+		return rv.iv, true
 	case "(reflect.Value).String":
 		rv := args[0].(RV)
 		var res Value = StrV{id: in.fresh("reflectString", BVS(32))}
